@@ -163,7 +163,7 @@ def comp_value(dim, c, p):
     return v
 
 
-def build(cfg, f, interp_op, integrator=None):
+def build(cfg, f, interp_op, integrator=None, print_output=False):
     from sparseSpACE.StandardCombi import StandardCombi
     from sparseSpACE.GridOperation import Integration, Interpolation
     from sparseSpACE.Grid import TrapezoidalGrid, TrapezoidalGrid1D, MixedGrid
@@ -186,7 +186,7 @@ def build(cfg, f, interp_op, integrator=None):
         grid = TrapezoidalGrid(a, b, boundary=mk_flag(fl[0], typ), integrator=integrator)
     cls = Interpolation if interp_op else Integration
     op = cls(f, grid=grid, dim=cfg["dim"])
-    sc = StandardCombi(a, b, operation=op, print_level=print_levels.NONE, log_level=log_levels.NONE)
+    sc = StandardCombi(a, b, operation=op, print_output=print_output, print_level=print_levels.NONE, log_level=log_levels.NONE)
     # object history: earlier parameter sets requested on the SAME object (a scheme getter with hidden state, e.g. a
     # memo keyed too coarsely, must not leak an earlier scheme into the one under test)
     for (l0, l1) in cfg.get("warm", []):
@@ -284,6 +284,17 @@ def gen_cfg(ctx, thorough, far=False):
 
 def gen_cfg0(ctx, thorough, far=False):
     r = ctx.rng
+    if far and r.random() < 0.4:
+        # the other scale extreme: tiny boxes (width 2^-40, dyadic, so every comparison stays exact), boundary on or off
+        dim = r.choice([1, 2, 2])
+        lmin = r.choice([1, 2])
+        lmax = lmin + r.choice([2, 3, 4])
+        a = [r.choice([F(0), F(1), F(-1), F(1, 2 ** 20)]) for _ in range(dim)]
+        b = [x + F(1, 2 ** 40) * r.choice([1, 1, 3]) for x in a]
+        if dim == 2 and r.random() < 0.5:   # tiny in one dimension only: very non-cubic
+            a[1], b[1] = F(-3), F(5)
+        return {"dim": dim, "lmin": lmin, "lmax": lmax, "bd": r.random() < 0.5, "a": [float(x) for x in a],
+                "b": [float(x) for x in b], "flagtype": r.choice(["bool", "npbool", "int"]), "tiny": True}
     if far:
         dim = r.choice([1, 1, 2])
         lmin = r.choice([1, 2])
@@ -294,9 +305,12 @@ def gen_cfg0(ctx, thorough, far=False):
             a[1], b[1] = F(0), F(1)
         return {"dim": dim, "lmin": lmin, "lmax": lmax, "bd": False, "a": [float(x) for x in a], "b": [float(x) for x in b],
                 "flagtype": r.choice(["bool", "npbool", "int"])}
-    dim = r.choice([1, 2, 2, 2, 3, 3, 4] if not thorough else [1, 2, 2, 3, 3, 3, 4, 4])
+    dim = r.choice([1, 2, 2, 2, 2, 3, 3, 3, 4, 4, 5] if not thorough else [1, 2, 2, 3, 3, 3, 4, 4, 5])
     lmin = r.choice([1, 1, 2, 2, 3])
-    if dim == 1:
+    if dim == 5:
+        lmin = 1
+        span = r.randint(0, 1 if not thorough else 2)
+    elif dim == 1:
         span = r.randint(0, 4)
     elif dim == 2:
         span = r.randint(0, 4)
@@ -579,15 +593,36 @@ class Runner:
                 d = ctx.rng.randrange(dim)
                 coords2[d] = sorted(coords2[d][1:] + [ctx.rng.choice(us)[d]])
             alias_mode = ctx.rng.choice(["inplace", "replace"])
+        # rarely used public toggles and multi-call sequences on ONE object
+        if "seq" in case:
+            seq = case["seq"]
+        else:
+            rr = ctx.rng
+            seq = {"nocache": rr.random() < 0.25, "reset_mid": rr.random() < 0.25, "print_output": rr.random() < 0.15,
+                   "pre": [], "again": rr.random() < 0.4, "feedback": rr.random() < 0.5}
+            if rr.random() < 0.4:   # the same object first works with OTHER levels
+                l0 = rr.randint(1, lmin + 1)
+                seq["pre"] = [[l0, l0 + rr.randint(0, 2)]]
         case = dict(case, comps=[comp_to_case(c) for c in comps], xs=[list(p) for p in xs], coords=coords, interp_op=interp_op,
-                    lv_one=list(lv_one), integrator=integrator, coords2=coords2, alias_mode=alias_mode)
+                    lv_one=list(lv_one), integrator=integrator, coords2=coords2, alias_mode=alias_mode, seq=seq)
         tags = dict(tags, integrator=integrator or "scalar-product")
         f = make_function(dim, comps, (a, b, fl))
-        sc, grid, op = build(cfg, f, interp_op, integrator)
+        sc, grid, op = build(cfg, f, interp_op, integrator, print_output=seq["print_output"])
+        extra = {}
         try:
             with quiet():
+                if seq["nocache"]:
+                    f.deactivate_caching()
+                earlier = []
+                for (l0, l1) in seq["pre"]:
+                    res0 = sc.perform_operation(int(l0), int(l1))[2]      # the returned array itself, not a copy
+                    earlier.append((res0, np.array(res0, dtype=float).copy()))
+                f.evaluated = set()
                 _, _, integral = sc.perform_operation(lmin, lmax)
                 integral = np.array(integral, dtype=float).copy()
+                extra["earlier_ok"] = all(np.array_equal(np.array(r0, dtype=float), snap, equal_nan=True) for r0, snap in earlier)
+                if seq["reset_mid"]:
+                    f.reset_dictionary()
                 vals = np.array(sc(list(xs)), dtype=float)
                 coords_obj = [np.array(c, dtype=float) for c in coords]
                 gvals = np.array(sc.interpolate_grid(coords_obj), dtype=float)
@@ -603,12 +638,65 @@ class Runner:
                 vals_a = np.array(sc(pts_arr), dtype=float)
                 pts_arr[:] = pts_arr[::-1].copy()     # the SAME point array, reversed in place
                 vals_b = np.array(sc(pts_arr), dtype=float)
+                # the implementation must not modify the caller's arguments
+                extra["args_untouched"] = (all(np.array_equal(coords_obj[d], np.array(coords2[d], dtype=float)) for d in range(dim))
+                                           and np.array_equal(pts_arr, np.array([list(p) for p in xs], dtype=float)[::-1]))
                 cg = [g for g in sc.scheme if tuple(int(x) for x in g.levelvector) == tuple(lv_one)][0]
                 one = np.array(sc.interpolate_points(list(xs), cg), dtype=float)
+                # repeated queries give the same answer and do not touch the stored result
+                extra["stored"] = np.array(sc.operation.get_result(), dtype=float).copy()
+                extra["vals_again"] = np.array(sc(list(xs)), dtype=float)
+                evaluated_main = set(f.evaluated)
+                # the object's own outputs fed back in: the combined quadrature points into __call__, the coordinate
+                # arrays of one component grid into interpolate_grid
+                if seq["feedback"] and len(info["P"]) <= 2500:
+                    P_own, _ = sc.get_points_and_weights()
+                    extra["P_own"] = [tuple(float(x) for x in p) for p in P_own]
+                    extra["vP"] = np.array(sc(P_own), dtype=float)
+                    own = sc.get_points_component_grid_1D_arrays(list(lv_one))[0]
+                    extra["own_coords"] = [[float(x) for x in c] for c in own]
+                    extra["v_own"] = np.array(sc.interpolate_grid(own), dtype=float)
+                    extra["own_after"] = [tuple(float(x) for x in p) for p in sc.get_points_component_grid(list(lv_one))]
+                evaluated_main |= set(f.evaluated)
+                # the same object works with other levels, then again with the levels under test
+                if seq["again"]:
+                    l0 = max(1, lmin - 1) if lmin > 1 else lmin + 1
+                    sc.perform_operation(l0, l0 + 1)
+                    extra["integral_again"] = np.array(sc.perform_operation(lmin, lmax)[2], dtype=float).copy()
+                f.evaluated = evaluated_main
         except Exception as e:
             self.viol("exception", dict(tags, exc=type(e).__name__), case, {"exc": repr(e)[:300]})
             return
         gpts = list(itertools.product(*coords))
+        seqtags = dict(tags, nocache=seq["nocache"], reset_mid=seq["reset_mid"], pre=bool(seq["pre"]))
+        if not extra["args_untouched"]:
+            self.viol("argument-modified", tags, case, {"what": "interpolate_grid / __call__ changed the caller's coordinate or point arrays"})
+        if not extra["earlier_ok"]:
+            self.viol("result-aliasing", seqtags, case, {"what": "the result array returned by an earlier perform_operation changed when the object worked again"})
+        if not np.array_equal(extra["stored"], integral, equal_nan=True) or not np.array_equal(extra["vals_again"], vals, equal_nan=True):
+            self.viol("repeated-query", seqtags, case, {"what": "interpolation requests changed the stored result or a repeated request gave another answer",
+                                                        "integral": fmt_vals(integral), "stored_after": fmt_vals(extra["stored"])})
+        if "integral_again" in extra and not np.array_equal(extra["integral_again"], integral, equal_nan=True):
+            self.viol("second-run", seqtags, case, {"what": "perform_operation(lmin, lmax) after a run with other levels on the same object",
+                                                    "first": fmt_vals(integral), "again": fmt_vals(extra["integral_again"])})
+        if "vP" in extra:
+            usset0 = set(us)
+            for j, c in enumerate(comps):
+                badP = [(p, fs(extra["vP"][n, j])) for n, p in enumerate(extra["P_own"])
+                        if (c[0] != "tab" or p in usset0) and not feq(extra["vP"][n, j], comp_value(dim, c, p))]
+                own_pts = list(itertools.product(*extra["own_coords"]))
+                badO = [(p, fs(extra["v_own"][n, j])) for n, p in enumerate(own_pts)
+                        if (c[0] != "tab" or p in usset0) and not feq(extra["v_own"][n, j], comp_value(dim, c, p))]
+                if len(extra["vP"]) != len(extra["P_own"]) or badP or badO or extra["own_after"] != own_pts:
+                    self.viol("fed-back-outputs", dict(seqtags, kind=(c[2] if c[0] == "tab" else "hat")), dict(case, component=j),
+                              {"call_on_own_quadrature_points": [list(badP[0][0]), badP[0][1]] if badP else len(extra["vP"]),
+                               "interpolate_grid_on_own_coordinates": [list(badO[0][0]), badO[0][1]] if badO else "ok",
+                               "component_points_unchanged": extra["own_after"] == own_pts})
+                    break
+            ctx.count("fed_back_bundles")
+        for k_, v_ in seq.items():
+            if v_:
+                ctx.count("seq_" + k_)
         if not np.array_equal(gvals2, gvals2_ref, equal_nan=True):
             self.viol("grid-vs-pointwise", dict(tags, aliased=alias_mode), case,
                       {"what": "interpolate_grid called again with the same list object whose contents were overwritten",
@@ -747,7 +835,7 @@ def run_config(ctx, drv, cfg, bundles=None, far=False, nbundles=2, replaying=Non
         for rb in replaying:
             comps = [comp_from_case(cfg, j) for j in rb["comps"]]
             c2 = dict(case)
-            for k in ("interp_op", "lv_one", "integrator", "coords2", "alias_mode"):
+            for k in ("interp_op", "lv_one", "integrator", "coords2", "alias_mode", "seq"):
                 if k in rb:
                     c2[k] = rb[k]
             R.bundle(cfg, c2, info, comps, [tuple(p) for p in rb["xs"]], rb["coords"], far)
@@ -899,7 +987,7 @@ def run(ctx):
     drv = ctx.driver("drv_c02")
     n = 110 if not thorough else 1200
     budget = 80 if not thorough else 560
-    nfar = 3 if not thorough else 10
+    nfar = 4 if not thorough else 12
     for k in range(12 if not thorough else 80):   # non-dyadic stream: oracle only, tolerance 1e-9
         cfg = gen_nondyadic(ctx)
         sub = ctx.rng.getrandbits(32)
@@ -929,7 +1017,7 @@ def run(ctx):
         ctx.count("flagtype_" + cfg.get("flagtype", "bool"))
         ctx.count("via_" + cfg.get("via", "trapezoidal"))
         if far:
-            ctx.count("far_box")
+            ctx.count("tiny_box" if cfg.get("tiny") else "far_box")
         ctx.case(case, nontrivial=(cfg["dim"] >= 2 or cfg["lmax"] > cfg["lmin"]), sample=case if k in (nfar, nfar + 1) else None)
         # a disagreement with the model alone is not a defect: keep searching for an input on which the property
         # itself fails (the oracle runs on every case); stop early only once failing inputs were found
@@ -956,7 +1044,7 @@ def replay(ctx, rp):
     drv = ctx.driver("drv_c02")
     rb = None
     if "comps" in case:
-        rb = [{k: case[k] for k in ("comps", "xs", "coords", "interp_op", "lv_one", "integrator", "coords2", "alias_mode") if k in case}]
+        rb = [{k: case[k] for k in ("comps", "xs", "coords", "interp_op", "lv_one", "integrator", "coords2", "alias_mode", "seq") if k in case}]
     try:
         ok, _ = run_config(ctx, drv, case["cfg"], far=case.get("far", False), replaying=rb if rb is not None else [])
     except Exception as e:
